@@ -162,6 +162,9 @@ struct Sub {
   std::function<Outcome(const Case &)> run;
   bool fork = false;  // always isolate each case in a child
   int timeout_s = 20; // per-case alarm in fork mode
+  // fork mode only: called from the child's LAST atexit handler (i.e. after the library's own
+  // atexit clean-up has run) and may amend the outcome, e.g. "no library allocation left".
+  std::function<void(Outcome &)> exit_check;
 };
 
 namespace detail {
@@ -251,15 +254,26 @@ inline Outcome run_forked(const Sub &s, const Case &c) {
   if (pid == 0) {
     close(p[0]);
     alarm(s.timeout_s);
-    Outcome o = s.run(c);
-    std::string t = ser_outcome(o);
-    size_t off = 0;
-    while (off < t.size()) {
-      ssize_t w = write(p[1], t.data() + off, t.size() - off);
-      if (w <= 0) break;
-      off += w;
-    }
-    _exit(0);
+    static Outcome child_o;
+    static int child_fd;
+    static const Sub *child_sub;
+    child_fd = p[1];
+    child_sub = &s;
+    auto finish = +[]() {
+      if (child_sub->exit_check) child_sub->exit_check(child_o);
+      std::string t = ser_outcome(child_o);
+      size_t off = 0;
+      while (off < t.size()) {
+        ssize_t w = write(child_fd, t.data() + off, t.size() - off);
+        if (w <= 0) break;
+        off += w;
+      }
+      _exit(0);
+    };
+    if (s.exit_check) atexit(finish);  // registered before anything the library registers => runs after it
+    child_o = s.run(c);
+    if (s.exit_check) exit(0);
+    finish();
   }
   close(p[1]);
   std::string t;
